@@ -19,20 +19,21 @@ COMMON_ASSUMPTIONS = [
 ]
 
 CORE = ["corpus", "bfs_c3", "bfs_c2", "rand_cw", "rand_cwf"]
+API = ["bfs_a", "rand_cwa"]     # the handle-consuming API inside adoption graphs (make_mut drops a handle too)
 DISC_ONLY = {"C01", "C02", "C03", "C05", "C06"}
 
 PROPS = {
-    "C01": dict(statement_status="PROVED in full for the modelled language (new/clone/drop/adopt/unadopt/downgrade/upgrade/store/take, the consuming API, destructor scripts, panics), every history length, graph shape and choice oracle: run_history_from_init (no fault; Inv at every boundary), reachable_alive (everything reachable from held handles is alive, in every configuration), group_inv (orphan test sound under discipline of the traced set only). Precondition as a checked hypothesis: hist_ok = discipline when drop logic starts + act_safe for scripts. 'Original value' (pid = box index) is PidInv (pi_home).", streams=CORE + ["rand_cws"], fields={"kind", "Dset", "strong", "tables"},
+    "C01": dict(statement_status="PROVED in full for the modelled language (new/clone/drop/adopt/unadopt/downgrade/upgrade/store/take, the consuming API, destructor scripts, panics), every history length, graph shape and choice oracle: run_history_from_init (no fault; Inv at every boundary), reachable_alive (everything reachable from held handles is alive, in every configuration), group_inv (orphan test sound under discipline of the traced set only). Precondition as a checked hypothesis: hist_ok = discipline when drop logic starts + act_safe for scripts. 'Original value' (pid = box index) is PidInv (pi_home).", streams=CORE + ["rand_cws"] + API, fields={"kind", "Dset", "strong", "tables"},
                 oracles={"C01"}),
-    "C02": dict(statement_status="PROVED for the access protocol: step_inv/steps_no_fault (the only halt of a disciplined run is the abort of C16: no access to a released box, moved-out table or value), freed_iff (released exactly when unneeded, hence once), drop_dead_inv (inert handles). Destructor at most once: PidInv (dtor log NoDup) for every run. Partial by nature: compiler-level UB (aliasing, hashbrown internals) is outside the model; covered by the harness's shadow-state hook and quarantine allocator only.", streams=CORE + ["bfs_w", "rand_cws", "rand_cwk"], fields={"kind", "Dset", "freed", "live"},
+    "C02": dict(statement_status="PROVED for the access protocol: step_inv/steps_no_fault (the only halt of a disciplined run is the abort of C16: no access to a released box, moved-out table or value), freed_iff (released exactly when unneeded, hence once), drop_dead_inv (inert handles). Destructor at most once: PidInv (dtor log NoDup) for every run. Partial by nature: compiler-level UB (aliasing, hashbrown internals) is outside the model; covered by the harness's shadow-state hook and quarantine allocator only.", streams=CORE + ["bfs_w", "rand_cws", "rand_cwk"] + API, fields={"kind", "Dset", "freed", "live"},
                 oracles={"C02", "fault"}),
-    "C03": dict(statement_status="PROVED: live_has_handle (nothing alive without a handle, every configuration), drop_last_inv (last drop destroys now), group_inv (collected set = whole traced set), run_terminates/exec_op_returns (every call returns, explicit fuel bound), orphan_complete (Inv/OrphanComplete.v: an orphaned set passes the test) when present. REFUTED for Loopback-recorded self handles: C03_loopback_refuted (known finding D3).", streams=CORE + ["rand_cws"], fields={"kind", "Dset", "strong", "tables"},
+    "C03": dict(statement_status="PROVED: live_has_handle (nothing alive without a handle, every configuration), drop_last_inv (last drop destroys now), group_inv (collected set = whole traced set), run_terminates/exec_op_returns (every call returns, explicit fuel bound), orphan_complete (Inv/OrphanComplete.v: an orphaned set passes the test) when present. REFUTED for Loopback-recorded self handles: C03_loopback_refuted (known finding D3).", streams=CORE + ["rand_cws"] + API, fields={"kind", "Dset", "strong", "tables", "T"},
                 oracles={"C03"}),
     "C04": dict(statement_status="PROVED at the level of allocation events (box released, table storage dropped = links None, value dropped): destroyed_released, freed_iff, and every teardown path inside step_inv. Partial by nature: bytes and the allocator are not modelled; the harness's counting allocator covers them.", streams=["corpus", "bfs_c2", "bfs_w", "rand_cwf", "rand_cwsf", "rand_cwa"],
                 fields={"kind", "freed", "live"}, oracles={"C04"}),
     "C05": dict(statement_status="PROVED in every configuration incl. inside destructors of a group teardown: upgrade_iff_alive, weak_counts_dead, weak_target_allocated; all members dead before any destructor runs (group_inv: group_heap).", streams=["corpus", "bfs_w", "bfs_n", "rand_cw", "rand_cwf", "rand_cws", "rand_cwk", "rand_cwa", "rand_n"],
                 fields={"kind", "res", "obs", "freed", "weak"}, oracles={"C05"}),
-    "C06": dict(statement_status="PROVED: counts_exact / strong_count_exact at call boundaries, ci_strong/ci_weak in every configuration (census over registers, values, frames), adopt/unadopt change no counter (adopt_spec, unadopt_spec). Identity (ptr_eq/as_ptr stability) is trivial in the model (ids) and NOT proved: harness only.", streams=CORE + ["bfs_w", "rand_cws"], fields={"kind", "obs", "strong", "weak", "res"},
+    "C06": dict(statement_status="PROVED: counts_exact / strong_count_exact at call boundaries, ci_strong/ci_weak in every configuration (census over registers, values, frames), adopt/unadopt change no counter (adopt_spec, unadopt_spec). Identity (ptr_eq/as_ptr stability) is trivial in the model (ids) and NOT proved: harness only.", streams=CORE + ["bfs_w", "rand_cws"] + API, fields={"kind", "obs", "strong", "weak", "res"},
                 oracles={"C06"}),
     "C07": dict(statement_status="PROVED: noadopt_is_std_exact (Proofs/StdRefine.v): for every adoption-free history over the modelled API, scripts and panics included, the machine and the specification StdRc (Proofs/StdRc.v) yield the same outcomes, destructor sequence and states. StdRc itself is tied to the real std::rc by the three-way differential run. Not modelled: comparison/formatting/hashing, From<T>/From<Box<T>>, Default, Pin (delegations to T).", streams=["corpus", "bfs_n", "rand_n", "rand_np"],
                 fields={"kind", "res", "Dseq", "Dset", "obs", "strong", "weak", "freed", "live"},
